@@ -1,5 +1,216 @@
+/-
+  Proofs/C20.lean — helper lemmas for Props/C20.lean (assert reachability).
+-/
 import BitstringModel.Model.C20
 import BitstringModel.Proofs.Basic
 import BitstringModel.Proofs.C01
 namespace BM.C20
+open BM
+
+/-! ### generic facts about `isInternal`, `check`, binds and folds -/
+
+@[simp] theorem isInternal_ok {α} (a : α) : isInternal (Except.ok a : Except Err α) = false := rfl
+@[simp] theorem isInternal_pure {α} (a : α) : isInternal (pure a : Except Err α) = false := rfl
+@[simp] theorem isInternal_value {α} : isInternal (Except.error Err.value : Except Err α) = false := rfl
+
+theorem check_true (e : Err) : check true e = .ok () := rfl
+
+theorem check_of (P : Prop) [Decidable P] (h : P) (e : Err) : check (decide P) e = .ok () := by
+  simp only [check, decide_eq_true h, if_true]
+
+theorem ok_bind {α β} (a : α) (f : α → Except Err β) : (Except.ok a >>= f) = f a := rfl
+
+theorem isInternal_bind {α β} (x : Except Err α) (f : α → Except Err β)
+    (hx : isInternal x = false) (hf : ∀ a, x = .ok a → isInternal (f a) = false) :
+    isInternal (x >>= f) = false := by
+  cases x with
+  | error e => exact hx
+  | ok a => exact hf a rfl
+
+theorem foldlM_ni {α β} (f : β → α → Except Err β) (Inv : β → Prop) (ps : List α) :
+    ∀ init, Inv init →
+      (∀ acc, Inv acc → ∀ p ∈ ps, isInternal (f acc p) = false ∧ ∀ r, f acc p = .ok r → Inv r) →
+      isInternal (ps.foldlM f init) = false := by
+  induction ps with
+  | nil => intro init _ _; rfl
+  | cons p ps ih =>
+    intro init hinit hstep
+    rw [List.foldlM_cons]
+    have h := hstep init hinit p (List.mem_cons_self)
+    apply isInternal_bind _ _ h.1
+    intro r hr
+    exact ih r (h.2 r hr) (fun acc hacc q hq => hstep acc hacc q (List.mem_cons_of_mem _ hq))
+
+/-! ### Python slice facts -/
+
+theorem sliceIndices_in (a b : Int) (n : Nat) (h0 : 0 ≤ a) (hab : a ≤ b) (hb : b ≤ n) :
+    Py.sliceIndices (some a) (some b) 1 n = (a, b, 1) := by
+  unfold Py.sliceIndices
+  have h1 : ¬ ((1 : Int) < 0) := by omega
+  have ha : ¬ a < 0 := by omega
+  have hb' : ¬ b < 0 := by omega
+  simp only [h1, if_false, ha, hb']
+  have e1 : min a (n : Int) = a := by omega
+  have e2 : min b (n : Int) = b := by omega
+  rw [e1, e2]
+
+theorem pySetSlice_length (l : Bits) (a b : Int) (v : Bits) (h0 : 0 ≤ a) (hab : a ≤ b) (hb : b ≤ l.length) :
+    ((pySetSlice l a b v).length : Int) = l.length - (b - a) + v.length := by
+  unfold pySetSlice
+  rw [sliceIndices_in a b l.length h0 hab hb]
+  simp only [List.length_append, List.length_take, List.length_drop]
+  omega
+
+theorem pySlice_eq (l : Bits) (a b : Int) (h0 : 0 ≤ a) (hab : a ≤ b) (hb : b ≤ l.length) :
+    pySlice l a b = (l.drop a.toNat).take (b - a).toNat := by
+  unfold pySlice
+  rw [BM.C01.getSlice_step1, sliceIndices_in a b l.length h0 hab hb]
+
+theorem pySlice_length (l : Bits) (a b : Int) (h0 : 0 ≤ a) (hab : a ≤ b) (hb : b ≤ l.length) :
+    ((pySlice l a b).length : Int) = b - a := by
+  rw [pySlice_eq l a b h0 hab hb]
+  simp only [List.length_take, List.length_drop]
+  omega
+
+/-! ### the private helpers succeed (no internal error) under their preconditions -/
+
+theorem absoluteSlice_ni (l : Bits) (s e : Int) (h : s ≤ e) : isInternal (absoluteSlice l s e) = false := by
+  unfold absoluteSlice
+  split
+  · rfl
+  · rename_i hne
+    rw [check_of _ (by omega : s < e)]
+    rfl
+
+theorem absoluteSlice_ok (l : Bits) (s e : Int) (h : s ≤ e) : ∃ r, absoluteSlice l s e = .ok r := by
+  unfold absoluteSlice
+  split
+  · exact ⟨_, rfl⟩
+  · rename_i hne
+    rw [check_of _ (by omega : s < e)]
+    exact ⟨_, rfl⟩
+
+theorem truncateLeft_ni (l : Bits) (bits : Int) (h : 0 ≤ bits ∧ bits ≤ l.length) :
+    isInternal (truncateLeft l bits) = false := by
+  unfold truncateLeft
+  rw [check_of _ h, ok_bind]
+  split
+  · rfl
+  · obtain ⟨r, hr⟩ := absoluteSlice_ok l 0 bits h.1
+    rw [hr, ok_bind]
+    split <;> rfl
+
+theorem truncateRight_ni (l : Bits) (bits : Int) (h : 0 ≤ bits ∧ bits ≤ l.length) :
+    isInternal (truncateRight l bits) = false := by
+  unfold truncateRight
+  rw [check_of _ h, ok_bind]
+  split
+  · rfl
+  · obtain ⟨r, hr⟩ := absoluteSlice_ok l ((l.length : Int) - bits) l.length (by omega)
+    rw [hr, ok_bind]
+    split <;> rfl
+
+theorem insertH_ni (l b : Bits) (pos : Int) (h : 0 ≤ pos ∧ pos ≤ l.length) :
+    isInternal (insertH l b pos) = false := by
+  unfold insertH
+  rw [check_of _ h]
+  rfl
+
+theorem deleteH_ok (l : Bits) (bits pos : Int) (h : 0 ≤ pos ∧ pos ≤ l.length) (h2 : pos + bits ≤ l.length) :
+    deleteH l bits pos = .ok (pySetSlice l pos (pos + bits) []) := by
+  unfold deleteH
+  rw [check_of _ h, ok_bind, check_of _ h2]
+  rfl
+
+theorem ilshiftH_ni (l : Bits) (n : Int) (h : 0 < n ∧ n ≤ l.length) : isInternal (ilshiftH l n) = false := by
+  unfold ilshiftH
+  rw [check_of _ h, ok_bind]
+  apply truncateLeft_ni
+  simp only [List.length_append, List.length_replicate]
+  omega
+
+theorem irshiftH_ni (l : Bits) (n : Int) (h : 0 < n ∧ n ≤ l.length) : isInternal (irshiftH l n) = false := by
+  unfold irshiftH
+  rw [check_of _ h, ok_bind]
+  apply truncateRight_ni
+  simp only [List.length_append, List.length_replicate]
+  omega
+
+theorem reverseBytesH_ni (l : Bits) (s e : Int) (h : (e - s) % 8 = 0) :
+    isInternal (reverseBytesH l s e) = false := by
+  unfold reverseBytesH
+  rw [check_of _ h]
+  rfl
+
+theorem invertH_ok (l : Bits) (pos : Int) (h : 0 ≤ pos ∧ pos < l.length) :
+    invertH l pos = .ok (l.set pos.toNat (!(l.getD pos.toNat false))) := by
+  unfold invertH
+  rw [check_of _ h]
+  rfl
+
+theorem validateSlice_eq (len : Nat) (start stop : Option Int) :
+    ∃ s' e' : Int, validateSlice len start stop =
+      if 0 ≤ s' ∧ s' ≤ e' ∧ e' ≤ len then .ok (s', e') else .error .value :=
+  ⟨_, _, rfl⟩
+
+theorem validateSlice_ok (len : Nat) (start stop : Option Int) (s e : Int)
+    (h : validateSlice len start stop = .ok (s, e)) : 0 ≤ s ∧ s ≤ e ∧ e ≤ len := by
+  obtain ⟨s', e', heq⟩ := validateSlice_eq len start stop
+  rw [heq] at h
+  by_cases hc : 0 ≤ s' ∧ s' ≤ e' ∧ e' ≤ len
+  · rw [if_pos hc] at h
+    injection h with h
+    injection h with h1 h2
+    subst h1 h2
+    exact hc
+  · rw [if_neg hc] at h
+    cases h
+
+theorem validateSlice_err (len : Nat) (start stop : Option Int) (er : Err)
+    (h : validateSlice len start stop = .error er) : er = .value := by
+  obtain ⟨s', e', heq⟩ := validateSlice_eq len start stop
+  rw [heq] at h
+  by_cases hc : 0 ≤ s' ∧ s' ≤ e' ∧ e' ≤ len
+  · rw [if_pos hc] at h
+    cases h
+  · rw [if_neg hc] at h
+    injection h with h; exact h.symm
+
+theorem ite_ok_iff {α} (c : Prop) [Decidable c] (a : α) (er : Err) :
+    (∃ r, (if c then Except.ok a else Except.error er) = Except.ok r) ↔ c := by
+  by_cases hc : c
+  · rw [if_pos hc]; exact ⟨fun _ => hc, fun _ => ⟨a, rfl⟩⟩
+  · rw [if_neg hc]; exact ⟨fun ⟨r, h⟩ => (by cases h), fun h => absurd h hc⟩
+
+theorem insertH_ok (l b : Bits) (pos : Int) (h : 0 ≤ pos ∧ pos ≤ l.length) :
+    insertH l b pos = .ok (pySetSlice l pos pos b) := by
+  unfold insertH
+  rw [check_of _ h]
+  rfl
+
+/-! ### streams -/
+
+theorem setPos_ok (s : Stream) (p : Int) (s' : Stream) (h : setPos s p = .ok s') :
+    0 ≤ p ∧ p ≤ s.bits.length ∧ s' = { s with pos := p } := by
+  unfold setPos at h
+  by_cases h1 : p < 0
+  · rw [if_pos h1] at h; cases h
+  · rw [if_neg h1] at h
+    by_cases h2 : p > s.bits.length
+    · rw [if_pos h2] at h; cases h
+    · rw [if_neg h2] at h
+      injection h with h
+      exact ⟨by omega, by omega, h.symm⟩
+
+theorem setPos_err_iff (s : Stream) (p : Int) :
+    (∃ e, setPos s p = .error e) ↔ (p < 0 ∨ p > s.bits.length) := by
+  unfold setPos
+  by_cases h1 : p < 0
+  · rw [if_pos h1]; exact ⟨fun _ => Or.inl h1, fun _ => ⟨_, rfl⟩⟩
+  · rw [if_neg h1]
+    by_cases h2 : p > s.bits.length
+    · rw [if_pos h2]; exact ⟨fun _ => Or.inr h2, fun _ => ⟨_, rfl⟩⟩
+    · rw [if_neg h2]
+      exact ⟨fun ⟨e, h⟩ => (by cases h), fun h => by omega⟩
+
 end BM.C20
